@@ -66,6 +66,10 @@ impl Prop for C06 {
         48
     }
 
+    fn breadcrumbs(&self) -> bool {
+        true
+    }
+
     fn shrink_budget(&self) -> usize {
         500
     }
